@@ -168,7 +168,7 @@ func plans(c *core.Ctx) []plan {
 }
 
 func run(c *core.Ctx) {
-	c.Rule = "inputs = encodings of all messages with <=k slots per type, all decodable sequences of <=n wire records, and nesting chains (message/group/map/lazy wrappers to depth <=5, innermost message non-empty); for each: decode from a private buffer (lazy / eager / Merge into a fresh message, generated and dynamicpb), complement every byte of the buffer BEFORE the message is first read, and compare its snapshot and deterministic bytes with those of a message decoded from a pristine copy; Clone and Merge(dst,src): scramble every mutable part of the source (in-place byte flips of bytes fields and unknown buffers, list Set/Append, map Set, scalar resets, recursively) and require the clone/destination unchanged, and vice versa; protodelim over bufio readers of size 16..64: the first message must be unchanged after the next message overwrote the reader's buffer"
+	c.Rule = "inputs = encodings of all messages with <=k slots per type, all decodable sequences of <=n wire records, and nesting chains (message/group/map/lazy wrappers to depth <=5, innermost message non-empty); for each: decode from a private buffer (lazy / eager / Merge into a fresh message, generated and dynamicpb), complement every byte of the buffer BEFORE the message is first read, and compare its snapshot and deterministic bytes with those of a message decoded from a pristine copy; Clone and Merge(dst,src) with dst empty and with dst already holding the same fields: scramble every mutable part of the source (in-place byte flips of bytes fields and unknown buffers, list Set/Append, map Set, scalar resets, recursively) and require the clone/destination unchanged, and vice versa; protodelim over bufio readers of size 16..64: the first message must be unchanged after the next message overwrote the reader's buffer"
 	c.Exhaustive = true
 	var planOut []map[string]any
 	for _, p := range plans(c) {
@@ -270,8 +270,16 @@ func run(c *core.Ctx) {
 					ddst := f.MT.New()
 					proto.Merge(ddst.Interface(), dsrc.Interface())
 					dwant := univ.Snapshot(f.Build(slots))
+					// a destination that already holds the same fields (same oneof members,
+					// lists, maps, bytes): merging takes other paths than into an empty one
+					full := f.Build(slots)
+					proto.Merge(full.Interface(), src.Interface())
+					fullWant := univ.Snapshot(full)
 					scramble(src)
 					scramble(dsrc)
+					if got := univ.Snapshot(full); got != fullWant {
+						c.Violation("merge-into-populated-dst-changes-when-source-mutated type="+f.Name+" case="+name, map[string]any{"want": fullWant, "got": got})
+					}
 					if got := univ.Snapshot(cl); got != want {
 						c.Violation("clone-changes-when-source-mutated type="+f.Name+" case="+name, map[string]any{"want": want, "got": got})
 					}
